@@ -69,9 +69,9 @@ def run(ctx):
     for c in ("RungeKutta42<1,double>", "RungeKutta42<2,double>", "RungeKutta42<2,float>", "RungeKutta54<2,double>"):
         for st in ("dt0>=span", "dt0<span", "dt0<<span"):
             req += [(c + "/exact-for-degree<order", st, 10), (c + "/final-time", st, 10)]
-    ctx.run_events(bins["asan"], ctx.n(64000, 2000000), require=req, keymap=keymap, timeout=3600)
+    ctx.run_events(bins["asan"], ctx.n(64000, 1000000), require=req, keymap=keymap, timeout=3600)
     if ctx.thorough:
-        ctx.run_events(bins["O2"], 4000000, require=[], keymap=keymap, timeout=3600)
+        ctx.run_events(bins["O2"], 2000000, require=[], keymap=keymap, timeout=3600)
     ctx.assumptions += [
         "RK2/RK4 generic-step: h is (end-begin)/n rounded to the scalar type; the reported time may differ from the requested one by "
         "the accumulated rounding 8 eps (n+2) max|t|, not by a step",
